@@ -100,9 +100,18 @@ func keywordToken(b []byte) ([]byte, int) {
 		case '0', '1', '2', '3', '4', '5', '6', '7', '8', '9', '-':
 			// Numeric tokens
 			if v, id := tokFloatRule(b); len(v) > 0 {
+				if !floatInRange(v) {
+					return nil, INVALID
+				}
 				return v, id
 			}
-			return tokIntRule(b)
+			v, id := tokIntRule(b)
+			if len(v) > 0 {
+				if _, ok := parseIntOk(v); !ok {
+					return nil, INVALID
+				}
+			}
+			return v, id
 		case '_':
 			return tokIdRule(b)
 
